@@ -511,11 +511,15 @@ int tls13_sign_certificate_verify(int tls_mode,
 	dgst_ctx = *tbs_dgst_ctx;
 	digest_finish(&dgst_ctx, dgst, &dgstlen);
 
-	sm2_sign_init(&sign_ctx, key, signer_id, signer_id_len);
-	sm2_sign_update(&sign_ctx, prefix, 64);
-	sm2_sign_update(&sign_ctx, context_str_and_zero, context_str_and_zero_len);
-	sm2_sign_update(&sign_ctx, dgst, dgstlen);
-	sm2_sign_finish(&sign_ctx, sig, siglen);
+	if (sm2_sign_init(&sign_ctx, key, signer_id, signer_id_len) != 1
+		|| sm2_sign_update(&sign_ctx, prefix, 64) != 1
+		|| sm2_sign_update(&sign_ctx, context_str_and_zero, context_str_and_zero_len) != 1
+		|| sm2_sign_update(&sign_ctx, dgst, dgstlen) != 1
+		|| sm2_sign_finish(&sign_ctx, sig, siglen) != 1) {
+		gmssl_secure_clear(&sign_ctx, sizeof(sign_ctx));
+		error_print();
+		return -1;
+	}
 
 	gmssl_secure_clear(&sign_ctx, sizeof(sign_ctx));
 	return 1;
@@ -1359,7 +1363,11 @@ int tls13_record_get_handshake_finished(const uint8_t *record,
 int tls13_padding_len_rand(size_t *padding_len)
 {
 	uint8_t val;
-	rand_bytes(&val, 1);
+	*padding_len = 0;
+	if (rand_bytes(&val, 1) != 1) {
+		error_print();
+		return -1;
+	}
 	*padding_len = val % 128;
 	return 1;
 }
@@ -1575,8 +1583,11 @@ int tls13_do_connect(TLS_CONNECT *conn)
 	// send ClientHello
 	tls_trace("send ClientHello\n");
 	tls_record_set_protocol(record, TLS_protocol_tls1);
-	rand_bytes(client_random, 32); // TLS 1.3 Random 不再包含 UNIX Time
-	sm2_key_generate(&client_ecdhe);
+	if (rand_bytes(client_random, 32) != 1 // TLS 1.3 Random 不再包含 UNIX Time
+		|| sm2_key_generate(&client_ecdhe) != 1) {
+		error_print();
+		goto end;
+	}
 	tls13_client_hello_exts_set(client_exts, &client_exts_len, sizeof(client_exts), &(client_ecdhe.public_key));
 	tls_record_set_handshake_client_hello(record, &recordlen,
 		TLS_protocol_tls12, client_random, NULL, 0,
@@ -1869,7 +1880,11 @@ int tls13_do_connect(TLS_CONNECT *conn)
 			goto end;
 		}
 		tls13_record_trace(stderr, record, recordlen, 0, 0);
-		tls13_padding_len_rand(&padding_len);
+		if (tls13_padding_len_rand(&padding_len) != 1) {
+			error_print();
+			tls_send_alert(conn, TLS_alert_internal_error);
+			goto end;
+		}
 		if (tls13_record_encrypt(&conn->client_write_key, conn->client_write_iv,
 			conn->client_seq_num, record, recordlen, padding_len,
 			enced_record, &enced_recordlen) != 1) {
@@ -1889,7 +1904,11 @@ int tls13_do_connect(TLS_CONNECT *conn)
 		// send {CertificateVerify*}
 		tls_trace("send {CertificateVerify*}\n");
 		client_sign_algor = TLS_sig_sm2sig_sm3; // FIXME: 应该放在conn里面
-		tls13_sign_certificate_verify(TLS_client_mode, &conn->sign_key, TLS13_SM2_ID, TLS13_SM2_ID_LENGTH, &dgst_ctx, sig, &siglen);
+		if (tls13_sign_certificate_verify(TLS_client_mode, &conn->sign_key, TLS13_SM2_ID, TLS13_SM2_ID_LENGTH, &dgst_ctx, sig, &siglen) != 1) {
+			error_print();
+			tls_send_alert(conn, TLS_alert_internal_error);
+			goto end;
+		}
 		if (tls13_record_set_handshake_certificate_verify(record, &recordlen,
 			client_sign_algor, sig, siglen) != 1) {
 			error_print();
@@ -1897,7 +1916,11 @@ int tls13_do_connect(TLS_CONNECT *conn)
 			goto end;
 		}
 		tls13_record_trace(stderr, record, recordlen, 0, 0);
-		tls13_padding_len_rand(&padding_len);
+		if (tls13_padding_len_rand(&padding_len) != 1) {
+			error_print();
+			tls_send_alert(conn, TLS_alert_internal_error);
+			goto end;
+		}
 		if (tls13_record_encrypt(&conn->client_write_key, conn->client_write_iv,
 			conn->client_seq_num, record, recordlen, padding_len,
 			enced_record, &enced_recordlen) != 1) {
@@ -1922,7 +1945,11 @@ int tls13_do_connect(TLS_CONNECT *conn)
 		goto end;
 	}
 	tls13_record_trace(stderr, record, recordlen, 0, 0);
-	tls13_padding_len_rand(&padding_len);
+	if (tls13_padding_len_rand(&padding_len) != 1) {
+		error_print();
+		tls_send_alert(conn, TLS_alert_internal_error);
+		goto end;
+	}
 	if (tls13_record_encrypt(&conn->client_write_key, conn->client_write_iv,
 		conn->client_seq_num, record, recordlen, padding_len,
 		enced_record, &enced_recordlen) != 1) {
@@ -2097,8 +2124,12 @@ int tls13_do_accept(TLS_CONNECT *conn)
 
 	// 2. Send ServerHello
 	tls_trace("send ServerHello\n");
-	rand_bytes(server_random, 32);
-	sm2_key_generate(&server_ecdhe);
+	if (rand_bytes(server_random, 32) != 1
+		|| sm2_key_generate(&server_ecdhe) != 1) {
+		error_print();
+		tls_send_alert(conn, TLS_alert_internal_error);
+		goto end;
+	}
 	if (tls13_process_client_hello_exts(client_exts, client_exts_len,
 		&server_ecdhe, &client_ecdhe_public,
 		server_exts, &server_exts_len, sizeof(server_exts)) != 1) {
@@ -2158,7 +2189,11 @@ int tls13_do_accept(TLS_CONNECT *conn)
 	tls_record_set_protocol(record, TLS_protocol_tls12);
 	tls13_record_set_handshake_encrypted_extensions(record, &recordlen);
 	tls13_record_trace(stderr, record, recordlen, 0, 0);
-	tls13_padding_len_rand(&padding_len);
+	if (tls13_padding_len_rand(&padding_len) != 1) {
+		error_print();
+		tls_send_alert(conn, TLS_alert_internal_error);
+		goto end;
+	}
 	if (tls13_record_encrypt(&conn->server_write_key, conn->server_write_iv,
 		conn->server_seq_num, record, recordlen, padding_len,
 		enced_record, &enced_recordlen) != 1) {
@@ -2187,7 +2222,11 @@ int tls13_do_accept(TLS_CONNECT *conn)
 			goto end;
 		}
 		tls13_record_trace(stderr, record, recordlen, 0, 0);
-		tls13_padding_len_rand(&padding_len);
+		if (tls13_padding_len_rand(&padding_len) != 1) {
+			error_print();
+			tls_send_alert(conn, TLS_alert_internal_error);
+			goto end;
+		}
 		if (tls13_record_encrypt(&conn->server_write_key, conn->server_write_iv,
 			conn->server_seq_num, record, recordlen, padding_len,
 			enced_record, &enced_recordlen) != 1) {
@@ -2211,7 +2250,11 @@ int tls13_do_accept(TLS_CONNECT *conn)
 		goto end;
 	}
 	tls13_record_trace(stderr, record, recordlen, 0, 0);
-	tls13_padding_len_rand(&padding_len);
+	if (tls13_padding_len_rand(&padding_len) != 1) {
+		error_print();
+		tls_send_alert(conn, TLS_alert_internal_error);
+		goto end;
+	}
 	if (tls13_record_encrypt(&conn->server_write_key, conn->server_write_iv,
 		conn->server_seq_num, record, recordlen, padding_len,
 		enced_record, &enced_recordlen) != 1) {
@@ -2229,7 +2272,11 @@ int tls13_do_accept(TLS_CONNECT *conn)
 
 	// send Server {CertificateVerify}
 	tls_trace("send {CertificateVerify}\n");
-	tls13_sign_certificate_verify(TLS_server_mode, &conn->sign_key, TLS13_SM2_ID, TLS13_SM2_ID_LENGTH, &dgst_ctx, sig, &siglen);
+	if (tls13_sign_certificate_verify(TLS_server_mode, &conn->sign_key, TLS13_SM2_ID, TLS13_SM2_ID_LENGTH, &dgst_ctx, sig, &siglen) != 1) {
+		error_print();
+		tls_send_alert(conn, TLS_alert_internal_error);
+		goto end;
+	}
 	if (tls13_record_set_handshake_certificate_verify(record, &recordlen,
 		TLS_sig_sm2sig_sm3, sig, siglen) != 1) {
 		error_print();
@@ -2237,7 +2284,11 @@ int tls13_do_accept(TLS_CONNECT *conn)
 		goto end;
 	}
 	tls13_record_trace(stderr, record, recordlen, 0, 0);
-	tls13_padding_len_rand(&padding_len);
+	if (tls13_padding_len_rand(&padding_len) != 1) {
+		error_print();
+		tls_send_alert(conn, TLS_alert_internal_error);
+		goto end;
+	}
 	if (tls13_record_encrypt(&conn->server_write_key, conn->server_write_iv,
 		conn->server_seq_num, record, recordlen, padding_len,
 		enced_record, &enced_recordlen) != 1) {
@@ -2265,7 +2316,11 @@ int tls13_do_accept(TLS_CONNECT *conn)
 		goto end;
 	}
 	tls13_record_trace(stderr, record, recordlen, 0, 0);
-	tls13_padding_len_rand(&padding_len);
+	if (tls13_padding_len_rand(&padding_len) != 1) {
+		error_print();
+		tls_send_alert(conn, TLS_alert_internal_error);
+		goto end;
+	}
 	if (tls13_record_encrypt(&conn->server_write_key, conn->server_write_iv,
 		conn->server_seq_num, record, recordlen, padding_len,
 		enced_record, &enced_recordlen) != 1) {
